@@ -76,6 +76,24 @@ func texts(t reflect.Type, depth int) []string {
 		if len(e) > 5 {
 			out = append(out, "["+pick(5)+","+pick(6)+"]", "["+pick(7)+"]")
 		}
+		// element kinds that could (wrongly) be merged in place: every ordered pair of object-valued elements
+		switch ek := t.Elem().Kind(); ek {
+		case reflect.Interface, reflect.Struct, reflect.Map, reflect.Pointer:
+			var objs []string
+			for _, x := range e {
+				if strings.HasPrefix(x, "{") && len(objs) < 5 {
+					objs = append(objs, x)
+				}
+			}
+			for i := range objs {
+				out = append(out, "["+objs[i]+"]")
+				for j := range objs {
+					if i != j {
+						out = append(out, "["+objs[i]+","+objs[j]+"]")
+					}
+				}
+			}
+		}
 		return out
 	case reflect.Map:
 		out := []string{"null", "{}"}
